@@ -487,8 +487,8 @@ static const uint32_t U4_CHUNK = 4096;
 static void ucs4_value(Ctx& c, uint32_t v, int be, std::map<std::string, uint64_t>& cnt) {
     Bytes b = ref_utf32_encode(v, be != 0);
     FromRes r = x_from(g_u4[be], (const uint8_t*)b.data(), 4, 2);
-    char hv[16]; snprintf(hv, sizeof hv, "%08X", v);
-    std::string where = std::string("\"value\":") + jstr(hv) + ",\"encoding\":" + jstr(be ? "UCS-4BE" : "UCS-4LE") + ",\"bytes\":" + jstr(hexs(b));
+    auto where_fn = [&]() { char hv[16]; snprintf(hv, sizeof hv, "%08X", v); return std::string("\"value\":") + jstr(hv) + ",\"encoding\":" + jstr(be ? "UCS-4BE" : "UCS-4LE") + ",\"bytes\":" + jstr(hexs(b)); };
+#define where where_fn()
     if (is_scalar(v)) {
         U16 want; append_scalar(want, v);
         std::vector<uint8_t> ws = {4}; if (want.size() == 2) ws.push_back(0);
@@ -504,18 +504,19 @@ static void ucs4_value(Ctx& c, uint32_t v, int be, std::map<std::string, uint64_
     }
     if (r.threw) { cnt["ucs4_rejected:" + r.exc]++; return; }
     if (is_surrogate(v)) {
-        if (r.out.size() == 1 && r.out[0] == v && r.eaten == 4) { known_or_violation(c, "ucs4-surrogate-decoded", where + ",\"observed\":" + jstr(hex16(r.out))); return; }
+        if (r.out.size() == 1 && r.out[0] == v && r.eaten == 4) { if (g_strict) c.violation("ucs4-surrogate-decoded", where + ",\"observed\":" + jstr(hex16(r.out))); else cnt["known_defect:ucs4-surrogate-decoded"]++; return; }
     } else {
         // exactly the known wrong arithmetic: lead = 0xD7C0 + (v >> 10), trail = 0xDC00 + (v & 0x3FF), both truncated to 16 bits
         U16 bogus; bogus.push_back((uint16_t)(0xD7C0 + (v >> 10))); bogus.push_back((uint16_t)(0xDC00 + (v & 0x3FF)));
         if (r.out == bogus && r.eaten == 4) {
             bool looks_valid = bogus[0] >= 0xD800 && bogus[0] <= 0xDBFF;
             if (looks_valid) cnt["ucs4_out_of_range_decoded_as_valid_pair"]++;
-            known_or_violation(c, "ucs4-out-of-range-decoded", where + ",\"observed\":" + jstr(hex16(r.out)));
+            if (g_strict) c.violation("ucs4-out-of-range-decoded", where + ",\"observed\":" + jstr(hex16(r.out))); else cnt["known_defect:ucs4-out-of-range-decoded"]++;
             return;
         }
     }
     c.violation("ucs4-illegal-not-rejected", where + ",\"observed\":" + jstr(hex16(r.out)) + ",\"eaten\":" + std::to_string(r.eaten));
+#undef where
 }
 static void run_ucs4(uint64_t idx, Ctx& c) {
     std::map<std::string, uint64_t> cnt;
@@ -966,7 +967,12 @@ static void setup_witness(const Args& a, Runner& R) {
     if (a.str("space") == "overread") { g_witness_base = NWITNESS - 1; R.total = 1; }
     else R.total = NWITNESS - 1;
     R.fn = run_witness;
-    R.describe = [](uint64_t i) { return "{\"witness\":" + jstr(WITNESS[i + g_witness_base]) + ",\"repro\":\"makeNewTranscoderFor(\\\"ISO-8859-2\\\")->transcodeTo(src = exactly one XMLCh U+20AC on the heap, srcCount=1, UnRep_Throw)\"}"; };
+    R.describe = [](uint64_t i) {
+        std::string id = WITNESS[i + g_witness_base];
+        std::string o = "{\"witness\":" + jstr(id);
+        if (id == "icu-unrepresentable-overread") o += ",\"repro\":\"makeNewTranscoderFor(\\\"ISO-8859-2\\\")->transcodeTo(src = exactly one XMLCh U+20AC on the heap, srcCount=1, maxBytes=4, UnRep_Throw)\",\"expected\":\"TranscodingException(Trans_Unrepresentable) without reading src[1]\"";
+        return o + "}";
+    };
 }
 
 // =================================================================================================
